@@ -115,6 +115,10 @@ func (h *handler) getExpand(w http.ResponseWriter, r *http.Request, _ httprouter
 func (h *handler) Expand(ctx context.Context, req *rts.ExpandRequest) (*rts.ExpandResponse, error) {
 	var subSet *ketoapi.SubjectSet
 
+	if req.GetSubject().GetRef() == nil {
+		return nil, herodot.ErrBadRequest.WithError("subject is not allowed to be nil")
+	}
+
 	switch sub := req.Subject.Ref.(type) {
 	case *rts.Subject_Id:
 		return &rts.ExpandResponse{
@@ -125,9 +129,9 @@ func (h *handler) Expand(ctx context.Context, req *rts.ExpandRequest) (*rts.Expa
 		}, nil
 	case *rts.Subject_Set:
 		subSet = &ketoapi.SubjectSet{
-			Namespace: sub.Set.Namespace,
-			Object:    sub.Set.Object,
-			Relation:  sub.Set.Relation,
+			Namespace: sub.Set.GetNamespace(),
+			Object:    sub.Set.GetObject(),
+			Relation:  sub.Set.GetRelation(),
 		}
 	}
 
